@@ -117,6 +117,13 @@ def make_dyn(case):
     proj = case["crs"]
     ctor = case.get("ctor", {})
     proj = dict(proj) if isinstance(proj, dict) else proj
+    if case.get("first"):
+        # two-step use: the next granule is fitted on the CRS a previous freeze handed out
+        f = case["first"]
+        first = DynamicAreaDefinition("c14a", "c14a", proj).freeze(
+            (np.array([unhex(v) for v in f["lons"]]), np.array([unhex(v) for v in f["lats"]])),
+            resolution=res_arg(f["resolution"]), antimeridian_mode=f.get("antimeridian_mode"))
+        proj = first.crs if f.get("as") == "crs" else first.crs.to_proj4()
     if case.get("via") == "create_area_def":
         from pyresample import create_area_def
         kw = {}
@@ -177,6 +184,7 @@ def run_freeze(case):
             pd.update(fz["proj_info"])
         try:
             o["geo"] = bool(CRS(pd).is_geographic)
+            o["pm_in"] = float(CRS(pd).prime_meridian.longitude)
         except Exception:
             o["geo"] = None
         lonslats = mk_input(case)
